@@ -213,6 +213,20 @@ def cross_section(P, rep, rule="EXPR.crosssection"):
             for x in W.walk(n["c"][1]):
                 if x.get("k") == "BinaryOperator" and x.get("op") == "=" and astq.is_this_field(P, x["c"][0], "dim") and sc(x["c"][1]).get("v") == 2:
                     blk = n
+    dim_ternary = None
+    if blk is None:
+        # `dim = <cross section declared> ? 2 : 3;` next to the block that reads the cross section
+        for n in W.walk():
+            if n.get("k") == "BinaryOperator" and n.get("op") == "=" and astq.is_this_field(P, n["c"][0], "dim") and sc(n["c"][1]).get("k") == "ConditionalOperator":
+                co = sc(n["c"][1])
+                if sc(co["c"][1]).get("v") == 2 and sc(co["c"][2]).get("v") == 3:
+                    dim_ternary = co
+        if dim_ternary is not None:
+            for n in W.walk():
+                if n.get("k") == "IfStmt" and any(x.get("k") == "MemberExpr" and astq.is_this_field(P, x, "surface_coord_conversions") for x in W.walk(n["c"][1])) \
+                        and norm.render(P, astq.resolve_alias(P, W, n["c"][0])) == norm.render(P, astq.resolve_alias(P, W, dim_ternary["c"][0])):
+                    blk = n
+                    break
     if blk is None:
         raise AnalysisBroken("World::parse_entries: block setting dim = 2 not found")
     B = Block(P, W, hook=hook_pe)
@@ -263,8 +277,8 @@ def cross_section(P, rep, rule="EXPR.crosssection"):
         mc = astq.member_call(P, c, "check_entry")       # the test written directly in the condition
         if mc and string_lit(W, mc[2][0]) == "cross section":
             okc = True
-    els = blk["c"][2]
-    dim3 = els is not None and any(x.get("k") == "BinaryOperator" and x.get("op") == "=" and astq.is_this_field(P, x["c"][0], "dim") and sc(x["c"][1]).get("v") == 3
+    els = blk["c"][2] if len(blk["c"]) > 2 else None
+    dim3 = dim_ternary is not None or els is not None and any(x.get("k") == "BinaryOperator" and x.get("op") == "=" and astq.is_this_field(P, x["c"][0], "dim") and sc(x["c"][1]).get("v") == 3
                                   for x in W.walk(els))
     if okc and dim3:
         rep.ok(rule, "dim = 2 iff check_entry(\"cross section\"), else 3", W.nloc(blk), W.qn)
